@@ -34,7 +34,12 @@ def showErr : RegexErr → String
   | .decimalInvalid => "DecimalInvalid"
   | .escapeUnexpectedEof => "EscapeUnexpectedEof"
   | .escapeUnrecognized => "EscapeUnrecognized"
+  | .escapeHexEmpty => "EscapeHexEmpty"
+  | .escapeHexInvalid => "EscapeHexInvalid"
+  | .escapeHexInvalidDigit => "EscapeHexInvalidDigit"
   | .unsupportedBackreference => "UnsupportedBackreference"
+  | .specialWordBoundaryUnclosed => "SpecialWordBoundaryUnclosed"
+  | .specialWordBoundaryUnrecognized => "SpecialWordBoundaryUnrecognized"
   | .specialWordOrRepUnexpectedEof => "SpecialWordOrRepetitionUnexpectedEof"
   | .nestLimitExceeded => "NestLimitExceeded"
   | .unsupported => "Unsupported"
